@@ -21,7 +21,6 @@ def first_word(s):
 
 KNOWN_CLASSES = [
     "nested-variable-checked-by-named-type-only",
-    "subscription-root-fields-counted-ignoring-type-conditions",
 ]
 
 
